@@ -4,6 +4,10 @@
   correspondence check of ./check C16).
 -/
 import NdeVerif.Model.Callbacks
+import Mathlib.Analysis.SpecialFunctions.Log.Base
+import Mathlib.Tactic.Linarith
+import Mathlib.Tactic.Positivity
+import Mathlib.Tactic.NormNum
 
 namespace NdeVerif.C16
 open NdeVerif.Callbacks
@@ -592,6 +596,71 @@ example :
     let r := fit src 5 {} [.cond (.periodGlobal 3 0) (some .stop)]
     r.2.2.length = 3 ∧ r.1.stop = true ∧ (fit src 2 r.1 r.2.1).2.2.length = 2 := by decide
 
+/-- the log after one loop iteration: the previous log plus one event per callback whose condition held in the
+context of that epoch (training and validation themselves record nothing) -/
+theorem epochStep_log (src : Src) (i : Nat) (s : Solver) (cbs : List Callback) :
+    let s1 := validEpoch src (trainEpoch src { s with loc := i + 1 })
+    (epochStep src i s cbs).1.log = ((firedIdx s1.ctx 0 cbs).map (ev s1)).reverse ++ s.log := by
+  have hlog : (validEpoch src (trainEpoch src { s with loc := i + 1 })).log = s.log := by
+    simp only [validEpoch, trainEpoch]
+    by_cases h1 : s.nTrain = 0 <;> by_cases h2 : s.nValid = 0 <;> simp [h1, h2]
+  simp only [epochStep]
+  rw [callbacks_log, hlog]
+
+/-- a pure condition callback is the same object after any epoch (only its action may change state) -/
+theorem pure_callback_persists (cbs : List Callback) : ∀ (j0 : Nat) (s : Solver) (i : Nat) (c : Cond) (a : Action),
+    cbs[i]? = some (.cond c (some a)) → pureCond c = true →
+      ∃ a', (runCallbacks j0 s cbs).2[i]? = some (.cond c (some a')) := by
+  induction cbs with
+  | nil => intro j0 s i c a h; simp at h
+  | cons cb rest ih =>
+    intro j0 s i c a h hp
+    cases i with
+    | zero =>
+      simp only [List.getElem?_cons_zero, Option.some.injEq] at h
+      subst h
+      simp only [runCallbacks, List.getElem?_cons_zero, Callback.run, cond_eval_bool s.ctx c hp]
+      by_cases hs : sem s.ctx c = true
+      · exact ⟨(a.run j0 s).2, by simp [hs]⟩
+      · exact ⟨a, by simp [hs]⟩
+    | succ i =>
+      simp only [List.getElem?_cons_succ] at h
+      simp only [runCallbacks, List.getElem?_cons_succ]
+      exact ih _ _ i c a h hp
+
+/-- … hence through a whole `fit` loop: at the end of every epoch the callback at position `i` still carries
+the same pure condition `c`, so `action_runs_iff_condition` + `cond_eval_bool` apply to every epoch of the call
+with the same `c`: the action runs in exactly the epochs whose context satisfies `sem · c`. -/
+theorem loop_pure_persist (src : Src) (n : Nat) : ∀ (i0 : Nat) (s : Solver) (cbs : List Callback) (i : Nat) (c : Cond) (a : Action),
+    cbs[i]? = some (.cond c (some a)) → pureCond c = true →
+      (∀ sn ∈ (loop src i0 n s cbs).2.2, ∃ a', sn.2[i]? = some (.cond c (some a'))) ∧
+      ∃ a', (loop src i0 n s cbs).2.1[i]? = some (.cond c (some a')) := by
+  induction n with
+  | zero => intro i0 s cbs i c a h hp; simp [loop]; exact ⟨a, h⟩
+  | succ n ih =>
+    intro i0 s cbs i c a h hp
+    by_cases hs : s.stop = true
+    · simp [loop, hs]; exact ⟨a, h⟩
+    · obtain ⟨a1, h1⟩ := pure_callback_persists cbs 0 (validEpoch src (trainEpoch src { s with loc := i0 + 1 })) i c a h hp
+      have h1' : (epochStep src i0 s cbs).2[i]? = some (.cond c (some a1)) := h1
+      have := ih (i0 + 1) (epochStep src i0 s cbs).1 (epochStep src i0 s cbs).2 i c a1 h1' hp
+      rw [loop_succ src i0 n s cbs hs]
+      refine ⟨?_, ?_⟩
+      · intro sn hsn
+        rcases List.mem_cons.mp hsn with rfl | hsn
+        · exact ⟨a1, h1'⟩
+        · exact this.1 sn hsn
+      · have e : (loop src i0 (n + 1) s cbs).2.1 =
+            (loop src (i0 + 1) n (epochStep src i0 s cbs).1 (epochStep src i0 s cbs).2).2.1 := by
+          simp [loop, hs]
+        rw [e]; exact this.2
+
+/-- the firing clause for pure conditions, per epoch of the loop, in terms of the Boolean semantics -/
+theorem pure_action_runs_iff_sem (s : Solver) (cbs : List Callback) (i : Nat) (c : Cond) (a : Action)
+    (h : cbs[i]? = some (.cond c (some a))) (hp : pureCond c = true) :
+    i ∈ firedIdx s.ctx 0 cbs ↔ sem s.ctx c = true := by
+  rw [action_runs_iff_condition s cbs i c a h, cond_eval_bool s.ctx c hp]
+
 /-! ### 6. Set-once actions -/
 
 /-- number of `_set_loss_fn` calls made when the action is called on each of the given solver states in turn
@@ -644,8 +713,7 @@ theorem setOptimizer_once (idx : Nat) (src : OptSrc) (ss : List Solver) :
   cases ss with
   | nil => rfl
   | cons s ss =>
-    cases src <;>
-      simp [optSetCount, Action.run, optSetCount_called, Solver.logged] <;> omega
+    cases src <;> simp [optSetCount, Action.run, optSetCount_called, Solver.logged]
 
 theorem setOptimizer_reset (idx : Nat) (src : OptSrc) (called : Bool) (ss : List Solver) :
     optSetCount idx (.setOptimizer src true called) ss = ss.length := by
@@ -678,5 +746,175 @@ theorem setOptimizer_distinct_params (idx : Nat) (reset called : Bool) (s : Solv
 
 /-- non-vacuity: two unknowns sharing one 4-parameter network — 4 registered parameters, not 8 -/
 example : (((Action.setOptimizer .cls false false).run 0 { nets := [0, 0] }).1).optParams = [0, 1, 2, 3] := by decide
+
+/-! ### 7. The batch-count rule (Eve) -/
+
+/-- Python's `int(r)`: truncation towards zero -/
+noncomputable def trunc (r : ℝ) : ℤ := if 0 ≤ r then ⌊r⌋ else ⌈r⌉
+
+/-- `EveCallback.EPS = 1e-4` -/
+noncomputable def EPS : ℝ := 1 / 10000
+
+/-- `int(EPS + (np.log(value) - np.log(base_value)) / np.log(double_at))`, over the reals -/
+noncomputable def codeDt (v v0 p : ℝ) : ℤ := trunc (EPS + (Real.log v - Real.log v0) / Real.log p)
+
+/-- truncation and floor differ on negative numbers only, and `max(·, 0)` hides the difference -/
+theorem trunc_eq_floor_under_max (r : ℝ) : max (trunc r) 0 = max ⌊r⌋ 0 := by
+  unfold trunc
+  split
+  · rfl
+  · rename_i h
+    have hr : r ≤ 0 := le_of_lt (not_le.mp h)
+    have h1 : ⌈r⌉ ≤ 0 := Int.ceil_le.mpr (by simpa using hr)
+    have h2 : ⌊r⌋ ≤ 0 := Int.floor_nonpos hr
+    rw [max_eq_right h1, max_eq_right h2]
+
+/-- for a base `0 < p < 1`: `⌊log_p x⌋ ≥ k ↔ x ≤ p^k` (what lets the model avoid logarithms) -/
+theorem floor_logb_ge_iff (p x : ℝ) (hp0 : 0 < p) (hp1 : p < 1) (hx : 0 < x) (k : ℕ) :
+    (k : ℤ) ≤ ⌊Real.logb p x⌋ ↔ x ≤ p ^ k := by
+  rw [Int.le_floor, Int.cast_natCast, Real.le_logb_iff_rpow_le_of_base_lt_one hp0 hp1 hx, Real.rpow_natCast]
+
+theorem eveK_inv (pn pd xn xd : Nat) : ∀ (fuel k : Nat),
+    k ≤ eveK pn pd xn xd fuel k ∧ eveK pn pd xn xd fuel k ≤ k + fuel ∧
+    (∀ j, k < j → j ≤ eveK pn pd xn xd fuel k → xn * pd ^ j ≤ pn ^ j * xd) ∧
+    (eveK pn pd xn xd fuel k < k + fuel →
+      ¬ xn * pd ^ (eveK pn pd xn xd fuel k + 1) ≤ pn ^ (eveK pn pd xn xd fuel k + 1) * xd) := by
+  intro fuel
+  induction fuel with
+  | zero => intro k; simp [eveK]; intro j h1 h2; omega
+  | succ fuel ih =>
+    intro k
+    simp only [eveK]
+    split
+    · rename_i hle
+      obtain ⟨h1, h2, h3, h4⟩ := ih (k + 1)
+      refine ⟨by omega, by omega, ?_, fun h => h4 (by omega)⟩
+      intro j hj1 hj2
+      by_cases hj : j = k + 1
+      · subst hj; exact hle
+      · exact h3 j (by omega) hj2
+    · rename_i hle
+      exact ⟨le_refl _, by omega, fun j h1 h2 => by omega, fun _ => hle⟩
+
+theorem nat_le_iff_real (pn pd xn xd j : Nat) (hpd : 0 < pd) (hxd : 0 < xd) :
+    xn * pd ^ j ≤ pn ^ j * xd ↔ (xn : ℝ) / xd ≤ ((pn : ℝ) / pd) ^ j := by
+  have h1 : (0 : ℝ) < xd := by exact_mod_cast hxd
+  have h2 : (0 : ℝ) < (pd : ℝ) ^ j := by positivity
+  rw [div_pow, div_le_div_iff₀ h1 h2]
+  exact_mod_cast Iff.rfl
+
+/-- the model's logarithm-free search computes `max(0, ⌊log_p x⌋)` (when it stops before running out of fuel) -/
+theorem eveK_spec (pn pd xn xd fuel : Nat) (hpn : 0 < pn) (hp : pn < pd) (hxn : 0 < xn) (hxd : 0 < xd)
+    (hfuel : eveK pn pd xn xd fuel 0 < fuel) :
+    (eveK pn pd xn xd fuel 0 : ℤ) = max ⌊Real.logb ((pn : ℝ) / pd) ((xn : ℝ) / xd)⌋ 0 := by
+  have hpd : 0 < pd := by omega
+  have hp0 : (0 : ℝ) < (pn : ℝ) / pd := by positivity
+  have hp1 : (pn : ℝ) / pd < 1 := by
+    rw [div_lt_one (by exact_mod_cast hpd)]; exact_mod_cast hp
+  have hx : (0 : ℝ) < (xn : ℝ) / xd := by positivity
+  obtain ⟨_, _, h3, h4⟩ := eveK_inv pn pd xn xd fuel 0
+  generalize eveK pn pd xn xd fuel 0 = K at *
+  have hup : ¬ ((K + 1 : ℕ) : ℤ) ≤ ⌊Real.logb ((pn : ℝ) / pd) ((xn : ℝ) / xd)⌋ := by
+    rw [floor_logb_ge_iff _ _ hp0 hp1 hx, ← nat_le_iff_real _ _ _ _ _ hpd hxd]
+    exact h4 (by omega)
+  push_cast at hup
+  by_cases hK : K = 0
+  · subst hK
+    simp only [Nat.cast_zero] at hup ⊢
+    rw [max_eq_right (by omega)]
+  · have hlo : (K : ℤ) ≤ ⌊Real.logb ((pn : ℝ) / pd) ((xn : ℝ) / xd)⌋ := by
+      rw [floor_logb_ge_iff _ _ hp0 hp1 hx, ← nat_le_iff_real _ _ _ _ _ hpd hxd]
+      exact h3 K (by omega) (le_refl _)
+    have : ⌊Real.logb ((pn : ℝ) / pd) ((xn : ℝ) / xd)⌋ = K := by omega
+    rw [this, max_eq_left (by omega)]
+
+theorem eveBatches_max (n0 : Nat) (nmax : Option Nat) (dt : ℤ) :
+    eveBatches n0 nmax dt = eveBatches n0 nmax (max dt 0) := by
+  simp [eveBatches]
+
+/-- `code_dt`'s positive part is `max(0, ⌊log_p(v/v0)⌋)` unless the fractional part of the logarithm lies in the
+`EPS` zone just below an integer (the "doubling boundaries") -/
+theorem codeDt_max (v v0 p : ℝ) (hv : 0 < v) (hv0 : 0 < v0)
+    (hfrac : Int.fract (Real.logb p (v / v0)) < 1 - EPS) :
+    max (codeDt v v0 p) 0 = max ⌊Real.logb p (v / v0)⌋ 0 := by
+  have hL : (Real.log v - Real.log v0) / Real.log p = Real.logb p (v / v0) := by
+    rw [← Real.log_div hv.ne' hv0.ne', Real.log_div_log]
+  unfold codeDt
+  rw [hL, trunc_eq_floor_under_max]
+  congr 1
+  rw [Int.floor_eq_iff]
+  have h1 := Int.floor_le (Real.logb p (v / v0))
+  have h2 : Real.logb p (v / v0) - ⌊Real.logb p (v / v0)⌋ < 1 - EPS := hfrac
+  have hE : (0 : ℝ) < EPS := by unfold EPS; norm_num
+  constructor <;> linarith
+
+/-- **C16, batch-count clause.**  For `v, v0 > 0` and the fractional part of `log_p(v/v0)` outside `[1-EPS, 1)`,
+the code's rule sets `n_batches['train'] = min(n0 · 2^k, n_max)` with `k = max(0, ⌊log_p(v/v0)⌋)`
+(`n_max = None` or `0` meaning no cap). -/
+theorem eve_formula (v v0 p : ℝ) (hv : 0 < v) (hv0 : 0 < v0)
+    (hfrac : Int.fract (Real.logb p (v / v0)) < 1 - EPS) (n0 : Nat) (nmax : Option Nat) :
+    eveBatches n0 nmax (codeDt v v0 p) =
+      (match nmax with
+       | none => n0 * 2 ^ (max ⌊Real.logb p (v / v0)⌋ 0).toNat
+       | some 0 => n0 * 2 ^ (max ⌊Real.logb p (v / v0)⌋ 0).toNat
+       | some m => min (n0 * 2 ^ (max ⌊Real.logb p (v / v0)⌋ 0).toNat) m) := by
+  rw [eveBatches_max, codeDt_max v v0 p hv hv0 hfrac]
+  simp only [eveBatches]
+  rw [max_eq_left (le_max_right _ _)]
+  rfl
+
+/-- the model's Eve step (exact rationals, no logarithm) equals the code's rule over the reals:
+metric value `m/den`, `base_value = v0n/v0d`, `double_at = pn/pd` -/
+theorem eve_model_eq_code (m den v0n v0d pn pd fuel n0 : Nat) (nmax : Option Nat)
+    (hm : 0 < m) (hden : 0 < den) (hv0n : 0 < v0n) (hv0d : 0 < v0d) (hpn : 0 < pn) (hp : pn < pd)
+    (hfuel : eveK pn pd (m * v0d) (den * v0n) fuel 0 < fuel)
+    (hfrac : Int.fract (Real.logb ((pn : ℝ) / pd) (((m : ℝ) / den) / ((v0n : ℝ) / v0d))) < 1 - EPS) :
+    eveBatches n0 nmax (eveK pn pd (m * v0d) (den * v0n) fuel 0 : ℤ) =
+      eveBatches n0 nmax (codeDt ((m : ℝ) / den) ((v0n : ℝ) / v0d) ((pn : ℝ) / pd)) := by
+  have hx : (((m * v0d : ℕ) : ℝ) / ((den * v0n : ℕ) : ℝ)) = ((m : ℝ) / den) / ((v0n : ℝ) / v0d) := by
+    push_cast
+    have : (den : ℝ) ≠ 0 := by positivity
+    have : (v0n : ℝ) ≠ 0 := by positivity
+    have : (v0d : ℝ) ≠ 0 := by positivity
+    field_simp
+  rw [eveBatches_max n0 nmax (codeDt _ _ _), codeDt_max _ _ _ (by positivity) (by positivity) hfrac,
+    eveK_spec pn pd _ _ fuel hpn hp (by positivity) (by positivity) hfuel, hx]
+
+/-- non-vacuity of `eve_formula` / `eve_model_eq_code`: `v = 1/4`, `v0 = 1`, `p = 1/2` (k = 2, 4·n0 batches) -/
+example : Int.fract (Real.logb (1 / 2 : ℝ) ((1 / 4) / 1)) < 1 - EPS := by
+  have : Real.logb (1 / 2 : ℝ) ((1 / 4) / 1) = (2 : ℕ) := by
+    rw [show ((1 : ℝ) / 4) / 1 = (1 / 2) ^ (2 : ℕ) by norm_num, Real.logb_pow,
+      Real.logb_self_eq_one_iff.mpr ⟨by norm_num, by norm_num, by norm_num⟩]
+    norm_num
+  rw [this, Int.fract_natCast]; unfold EPS; norm_num
+example : eveK 1 2 (1 * 1) (4 * 1) 200 0 = 2 := by decide
+
+/-- a non-integer instance: `v = 3/8`, `v0 = 1`, `p = 1/2`: `log_p(v/v0) = log₂(8/3) ∈ [1, 3/2]` -/
+example : Int.fract (Real.logb (1 / 2 : ℝ) ((3 / 8) / 1)) < 1 - EPS := by
+  have hp0 : (0 : ℝ) < 1 / 2 := by norm_num
+  have hp1 : (1 / 2 : ℝ) < 1 := by norm_num
+  have hx : (0 : ℝ) < (3 / 8) / 1 := by norm_num
+  have h1 : (1 : ℝ) ≤ Real.logb (1 / 2) ((3 / 8) / 1) := by
+    rw [Real.le_logb_iff_rpow_le_of_base_lt_one hp0 hp1 hx, Real.rpow_one]; norm_num
+  have h2 : Real.logb (1 / 2 : ℝ) ((3 / 8) / 1) ≤ 3 / 2 := by
+    rw [Real.logb_le_iff_le_rpow_of_base_lt_one hp0 hp1 hx]
+    have hnn : (0 : ℝ) ≤ (1 / 2 : ℝ) ^ (3 / 2 : ℝ) := Real.rpow_nonneg hp0.le _
+    have hsq : ((1 / 2 : ℝ) ^ (3 / 2 : ℝ)) ^ 2 = 1 / 8 := by
+      rw [← Real.rpow_natCast, ← Real.rpow_mul hp0.le]
+      norm_num
+    have : ((1 / 2 : ℝ) ^ (3 / 2 : ℝ)) ^ 2 ≤ ((3 / 8) / 1 : ℝ) ^ 2 := by rw [hsq]; norm_num
+    exact (pow_le_pow_iff_left₀ hnn (by norm_num) (by norm_num)).mp this
+  have hfl : ⌊Real.logb (1 / 2 : ℝ) ((3 / 8) / 1)⌋ = 1 := by
+    rw [Int.floor_eq_iff]; constructor <;> push_cast <;> linarith
+  unfold Int.fract EPS
+  rw [hfl]; push_cast; linarith
+
+/-- the model's Eve action applies exactly that rule to `history[-1]` of the configured phase -/
+theorem eve_action (idx : Nat) (s : Solver) (c : EveCfg) (v : Int) (rest : List Int) (hv : 0 < v)
+    (hh : (if c.useTrain then s.train else s.valid) = v :: rest) :
+    ((Action.eve c).run idx s).1.nTrain =
+      eveBatches c.n0 c.nmax (eveK c.pn c.pd (v.toNat * c.v0d) (c.den * c.v0n) eveFuel 0 : Nat) := by
+  simp only [Action.run, hh]
+  rw [if_neg (by omega)]
 
 end NdeVerif.C16
